@@ -312,11 +312,11 @@ SPIN = [(r"read_into", "C01/loop-iterates-without-system-call: the communicate l
 
 
 def comm_h(name, streams, input_len, budget, kind="proof", timeout=2400, **kw):
-    return H("comm", name, unwind=3, unwindset=[(r"read_into", budget + 3)] + COMM_UW, timeout=timeout, mem_gb=20, kind=kind, spin_loops=SPIN,
+    return H("comm", name, unwind=3, unwindset=[(r"read_into", budget + 2)] + COMM_UW, timeout=timeout, mem_gb=20, kind=kind, spin_loops=SPIN,
              bounds=dict(CB, streams=streams, input_len=input_len, parent_syscalls=budget), **kw)
 
 
-TR_IOE = comm_h("h_comm_trace_ioe", "stdin+stdout+stderr, fresh exchange", 2, 5)
+TR_IOE = comm_h("h_comm_trace_ioe", "stdin+stdout+stderr, fresh exchange", 2, 4)
 TR_IO = comm_h("h_comm_trace_io", "stdin+stdout, fresh exchange", 1, 4)
 TR_OE = comm_h("h_comm_trace_oe", "stdout+stderr, fresh exchange", 0, 4)
 TR_O = comm_h("h_comm_trace_o", "stdout only (no-poll fast path), fresh exchange", 0, 4)
@@ -340,7 +340,7 @@ REG["C01"] = Spec(
     quick=[TR_IOE, TR_O, TR_I, TR_IO0, BIGW, ST_IOE],
     thorough=[TR_IOE, TR_IO, TR_OE, TR_O, TR_I, TR_IO0, BIGW, ST_IOE, ST_OE],
     encodes=COMM_ENC,
-    bounds={"quick": "traces of 4-5 parent system calls from the start of an exchange for {in,out,err}, {out}, {in}; one inductive step of 3 system calls from an arbitrary mid-exchange state for {in,out,err}", "thorough": "plus {in,out}, {out,err} traces and the {out,err} step"},
+    bounds={"quick": "traces of 4 parent system calls from the start of an exchange for {in,out,err}, {out}, {in}; one inductive step of 3 system calls from an arbitrary mid-exchange state for {in,out,err}", "thorough": "plus {in,out}, {out,err} traces and the {out,err} step"},
     outside="Popen::communicate*/Exec::capture/Pipeline::capture wrappers (they hand their three files to the same loop); transfers larger than 3 bytes per call; the Windows helper-thread variant (threads + channel: no installed engine executes Rust threads symbolically)",
     assumptions=COMM_ASSUME,
     explanation="safety form of termination, asserted inside the model kernel: a write is never issued that can block (chunk <= PIPE_BUF and room available after POLLOUT), a read never blocks while other pipes are held, poll is never called with nothing to wait for, and between two consecutive polls a byte moved or a stream was retired (no spinning at end-of-file)",
@@ -372,7 +372,7 @@ TRES = comm_h("h_comm_time_resume", "stdout only, timed read then an unlimited r
 TRES_IN = comm_h("h_comm_time_resume_in", "stdin+stdout, input of 2 bytes, timed read then an unlimited read (resumption of the input)", 2, 4, timeout=3600)
 LATE = comm_h("h_comm_late_kf", "stdout only, streams stay ready past the deadline", 0, 4, kind="kf", timeout=3000)
 PBIG = H("posix", "h_poll_big", unwind=3, unwindset=[(r"posix::poll", 5), (r"mk::comm::", 5)], timeout=2400, mem_gb=20, covers=["COVER/long-wait-expired"],
-         bounds={"time_limit": "2147483 s .. 4400000 s (24.8 .. 50.9 days: from 2^31 ms to beyond 2^32 ms), whole milliseconds", "streams": "none ready, ever"})
+         bounds={"time_limit": "2147483 s .. 4400000 s (24.8 .. 50.9 days: from 2^31 ms to beyond 2^32 ms), whole seconds", "streams": "none ready, ever"})
 REG["C04"] = Spec(
     quick=[ST_IOE, TQ, PBIG],
     thorough=[TR_IOE, ST_IOE, TO, TBIG, TRES, TRES_IN, PBIG, LATE],
